@@ -71,6 +71,17 @@ using namespace verif;
 
 namespace
 {
+// C01 is about totality (no UB, no crash, no hang, no undocumented exception). The entries below
+// also compare results with simple references, because that costs nothing and reads every result
+// (so that an ill-formed one trips a sanitizer) - but a result that merely DIFFERS from the reference
+// is not a violation of C01: a change to fcppt that keeps a function total while changing its value
+// must not make this check raise an alarm. Hence only the totality keys reach verif::fail; a value
+// disagreement is counted as a class in the evidence ("informational") and nothing more.
+void fail(std::string const &key, std::string const &what)
+{
+  if (key.find("undocumented-exception") != std::string::npos) verif::fail(key, what);
+  else verif::cls("value oracle disagreed (informational, outside C01)");
+}
 volatile long long g_sink = 0;
 template <typename T>
 void touch(T const &v)
